@@ -187,23 +187,28 @@ theorem matchedALPN_iff (m : List Name) (protos : List Name) :
 theorem lower_eq_nil (x : Name) : lower x = [] ↔ x = [] := by
   cases x <;> simp [lower]
 
-theorem mem_buildMatch (c : Ctx) (y : Name) :
-    y ∈ buildMatch c ↔ y ∈ c.names.map lower ∨ y ∈ c.alpn.map lower := by
-  unfold buildMatch Ctx.names
-  cases hcn : c.cn <;> cases hsn : c.serverName <;> simp <;> grind
+theorem mem_opt_name (n y : Name) :
+    y ∈ (if n.length > 0 then [lower n] else []) ↔ ∃ x ∈ (if n ≠ [] then [n] else []), x ≠ [] ∧ lower x = y := by
+  cases n with
+  | nil => simp
+  | cons a r => simp; exact eq_comm
 
-theorem names_ne_nil (c : Ctx) (hs : [] ∉ c.sans) : ∀ x ∈ c.names, x ≠ [] := by
-  intro x hx
-  unfold Ctx.names at hx
-  simp only [List.mem_append] at hx
-  rcases hx with (hx | hx) | hx
-  · split at hx
-    · simp at hx; subst hx; assumption
-    · simp at hx
-  · intro h; subst h; exact hs hx
-  · split at hx
-    · simp at hx; subst hx; assumption
-    · simp at hx
+theorem mem_buildMatch (c : Ctx) (y : Name) :
+    y ∈ buildMatch c ↔ (∃ x ∈ c.names, x ≠ [] ∧ lower x = y) ∨ y ∈ c.alpn.map lower := by
+  have hl : ∀ x : Name, decide (x.length > 0) = true ↔ x ≠ [] := by intro x; cases x <;> simp
+  unfold buildMatch Ctx.names
+  simp only [List.mem_append, mem_opt_name, List.mem_map, List.mem_filter, hl]
+  constructor
+  · rintro (((⟨x, hx, h⟩ | ⟨x, ⟨hx, hne⟩, e⟩) | h) | ⟨x, hx, h⟩)
+    · exact Or.inl ⟨x, Or.inl (Or.inl hx), h⟩
+    · exact Or.inl ⟨x, Or.inl (Or.inr hx), hne, e⟩
+    · exact Or.inr h
+    · exact Or.inl ⟨x, Or.inr hx, h⟩
+  · rintro (⟨x, ((hx | hx) | hx), hne, e⟩ | h)
+    · exact Or.inl (Or.inl (Or.inl ⟨x, hx, hne, e⟩))
+    · exact Or.inl (Or.inl (Or.inr ⟨x, ⟨hx, hne⟩, e⟩))
+    · exact Or.inr ⟨x, hx, hne, e⟩
+    · exact Or.inl (Or.inr h)
 
 /-- facts about the regenerated ALPN table: no supported token is empty or starts with `*` -/
 theorem supported_facts : ∀ t ∈ alpnSupported.map String.toList, t ≠ [] ∧ t.head? ≠ some '*' := by decide
@@ -240,30 +245,29 @@ theorem nameRule_iff (c : Ctx) (sni : Name) :
 
 /-- for a context whose ALPN tokens cannot be confused with the SNI, `MatchedServerName` over the shared set is the
 statement's name rule -/
-theorem sniMatch_eq_nameRule (c : Ctx) (sni : Name) (hs : [] ∉ c.sans)
+theorem sniMatch_eq_nameRule (c : Ctx) (sni : Name)
     (h1 : normSni sni ∉ c.alpn.map lower) : c.sniMatch sni = nameRule c sni := by
   rw [Bool.eq_iff_iff]
   unfold Ctx.sniMatch
   rw [matchedServerName_iff, nameRule_iff]
-  have hne := names_ne_nil c hs
   constructor
   · rintro (h | ⟨pre, suf, e, h⟩)
-    · rcases (mem_buildMatch c _).mp h with h | h
-      · obtain ⟨x, hx, e⟩ := List.mem_map.mp h
-        refine ⟨?_, x, hx, Or.inl e⟩
-        rw [← e]; intro h0; exact hne x hx ((lower_eq_nil x).mp h0)
+    · rcases (mem_buildMatch c _).mp h with ⟨x, hx, hne, e⟩ | h
+      · refine ⟨?_, x, hx, Or.inl e⟩
+        rw [← e]; intro h0; exact hne ((lower_eq_nil x).mp h0)
       · exact absurd h h1
-    · rcases (mem_buildMatch c _).mp h with h | h
-      · obtain ⟨x, hx, e'⟩ := List.mem_map.mp h
-        refine ⟨?_, x, hx, Or.inr ⟨pre, suf, e, e'⟩⟩
+    · rcases (mem_buildMatch c _).mp h with ⟨x, hx, _, e'⟩ | h
+      · refine ⟨?_, x, hx, Or.inr ⟨pre, suf, e, e'⟩⟩
         rw [e]; simp
       · obtain ⟨t, ht, e'⟩ := List.mem_map.mp h
         have := (supported_facts _ (alpn_lower_supported c t ht)).2
         rw [e'] at this
         simp at this
-  · rintro ⟨_, x, hx, h | ⟨pre, suf, e, h⟩⟩
-    · exact Or.inl ((mem_buildMatch c _).mpr (Or.inl (List.mem_map.mpr ⟨x, hx, h⟩)))
-    · exact Or.inr ⟨pre, suf, e, (mem_buildMatch c _).mpr (Or.inl (List.mem_map.mpr ⟨x, hx, h⟩))⟩
+  · rintro ⟨hn, x, hx, h | ⟨pre, suf, e, h⟩⟩
+    · refine Or.inl ((mem_buildMatch c _).mpr (Or.inl ⟨x, hx, ?_, h⟩))
+      intro h0; subst h0; exact hn (by rw [← h]; rfl)
+    · refine Or.inr ⟨pre, suf, e, (mem_buildMatch c _).mpr (Or.inl ⟨x, hx, ?_, h⟩)⟩
+      intro h0; subst h0; simp [lower] at h
 
 theorem alpnMatch_eq_alpnRule (c : Ctx) (protos : List Name)
     (h2 : ∀ q ∈ protos, lower q ∉ c.names.map lower) : c.alpnMatch protos = alpnRule c protos := by
@@ -273,11 +277,18 @@ theorem alpnMatch_eq_alpnRule (c : Ctx) (protos : List Name)
   simp only [List.any_eq_true, List.contains_iff_mem]
   constructor
   · rintro ⟨q, hq, h⟩
-    rcases (mem_buildMatch c _).mp h with h | h
-    · exact absurd h (h2 q hq)
+    rcases (mem_buildMatch c _).mp h with ⟨x, hx, _, e⟩ | h
+    · exact absurd (List.mem_map.mpr ⟨x, hx, e⟩) (h2 q hq)
     · exact ⟨q, hq, h⟩
   · rintro ⟨q, hq, h⟩
     exact ⟨q, hq, (mem_buildMatch c _).mpr (Or.inr h)⟩
+
+/-- the two recorded exceptions to "plaintext only when inspector mode allows it", as one hypothesis: the connection is a
+TCP connection (`tcp`; a unix-socket listener is not) and some context of the listener is ready (`en`; with every sds
+secret pending none is). Outside it `serverContextManager.Conn` passes the connection through. -/
+def ReadyTcp (tcp en : Bool) : Prop := tcp = true ∧ en = true
+
+instance (tcp en : Bool) : Decidable (ReadyTcp tcp en) := by unfold ReadyTcp; infer_instance
 
 def ofOpt : Option Nat → Outcome
   | some i => .config (some i)
